@@ -7,3 +7,4 @@ ASSUMPTIONS = []
 
 from vt.contracts import tables_ground  # noqa: F401,E402
 from vt.contracts import lineshape  # noqa: F401,E402
+from vt.contracts import iface_lineshape  # noqa: F401,E402
